@@ -6,6 +6,7 @@ import (
 	"math/rand"
 	"strings"
 	"sync"
+	"sync/atomic"
 	"time"
 
 	"github.com/jcmturner/gokrb5/v8/client"
@@ -108,6 +109,13 @@ func cmdC10(args []string) error {
 		}
 		if i%4 == 2 && c.Chain > 0 {
 			w = []string{"L", "GR", "G1", "GR"}
+		}
+		if i%8 == 3 {
+			// the KDC is away while the TGT runs out (its background refresh fails), and back afterwards
+			w = []string{"L", "G1", "O", "W", "W", "W", "W", "W", "G2", "U", "G2", "G1"}
+		}
+		if i%8 == 7 {
+			w = []string{"L", "O", "W", "G1", "W", "U", "G1", "W", "W", "W", "G2"} // a short outage
 		}
 		jobs = append(jobs, job{c, w, i})
 	}
@@ -241,6 +249,10 @@ func runC10(tw *traceWriter, c c10Config, word []string, id int) error {
 			}
 		case o == "W":
 			time.Sleep(1300 * time.Millisecond)
+		case o == "O": // an outage of the KDC begins: it drops every connection
+			atomic.StoreInt32(&k.down, 1)
+		case o == "U": // the outage ends
+			atomic.StoreInt32(&k.down, 0)
 		case o == "D":
 			ev["panic"] = catch(func() { cl.Destroy() })
 		case strings.HasPrefix(o, "G"):
